@@ -135,15 +135,17 @@ private:
   {
     const std::vector<int> onoff{0, 1}, allVer{V10, V11, V12, V13}, allMin{MV_0, MV_10, MV_12, MV_13},
       allBy{BY_IP, BY_NAME}, allSc{SC_VALID, SC_SELFSIGNED, SC_EXPIRED, SC_WRONGNAME, SC_MISMATCH},
+      // certificates the PEER presents to a verifying iora endpoint additionally come in two not-yet-valid forms
+      peerSc{SC_VALID, SC_SELFSIGNED, SC_EXPIRED, SC_WRONGNAME, SC_MISMATCH, SC_NOTYET, SC_NOTYET_FAR},
       trust5{T_RIGHT, T_WRONG, T_NONE, T_WRONG_SYS_RIGHT, T_SYS_RIGHT}, trust3{T_RIGHT, T_WRONG, T_NONE},
-      cc3{CC_NONE, CC_VALID, CC_UNTRUSTED}, cc5{CC_NONE, CC_VALID, CC_UNTRUSTED, CC_EXPIRED, CC_SELFSIGNED},
+      cc3{CC_NONE, CC_VALID, CC_UNTRUSTED}, cc7{CC_NONE, CC_VALID, CC_UNTRUSTED, CC_EXPIRED, CC_SELFSIGNED, CC_NOTYET, CC_NOTYET_FAR},
       ca3{CA_RIGHT, CA_WRONG, CA_NONE}, raw{K_PLAINTEXT, K_GARBAGE};
     auto one = [](int v) { return std::vector<int>{v}; };
 
     Block b;
     // ---- iora client transport (connect / connectSync) vs OpenSSL server
     b = Block{"client/openssl", 40, {}};
-    b.values = {std::vector<int>{R_CLIENT_ASYNC, R_CLIENT_SYNC}, one(K_OPENSSL), onoff, trust5, allSc, onoff, cc3,
+    b.values = {std::vector<int>{R_CLIENT_ASYNC, R_CLIENT_SYNC}, one(K_OPENSSL), onoff, trust5, peerSc, onoff, cc3,
                 allVer, allMin, allBy, one(CA_RIGHT), one(CFG_OK)};
     add(b);
     b = Block{"client/raw", 6, {}};
@@ -152,7 +154,7 @@ private:
     add(b);
     // ---- iora server transport vs OpenSSL client
     b = Block{"server/openssl", 22, {}};
-    b.values = {one(R_SERVER), one(K_OPENSSL), onoff, one(T_RIGHT), allSc, one(0), cc5, allVer, allMin, one(BY_IP), ca3,
+    b.values = {one(R_SERVER), one(K_OPENSSL), onoff, one(T_RIGHT), allSc, one(0), cc7, allVer, allMin, one(BY_IP), ca3,
                 one(CFG_OK)};
     add(b);
     b = Block{"server/raw", 4, {}};
@@ -161,7 +163,7 @@ private:
     add(b);
     // ---- HttpClient vs OpenSSL server speaking HTTP
     b = Block{"httpclient/openssl", 18, {}};
-    b.values = {one(R_HTTP_CLIENT), one(K_OPENSSL), onoff, trust5, allSc, onoff, cc3, allVer, one(MV_0), allBy,
+    b.values = {one(R_HTTP_CLIENT), one(K_OPENSSL), onoff, trust5, peerSc, onoff, cc3, allVer, one(MV_0), allBy,
                 one(CA_RIGHT), one(CFG_OK)};
     add(b);
     b = Block{"httpclient/raw", 3, {}};
@@ -170,7 +172,7 @@ private:
     add(b);
     // ---- HttpServer vs OpenSSL client speaking HTTP
     b = Block{"httpserver/openssl", 6, {}};
-    b.values = {one(R_HTTP_SERVER), one(K_OPENSSL), onoff, one(T_RIGHT), allSc, one(0), cc5, allVer, one(MV_0),
+    b.values = {one(R_HTTP_SERVER), one(K_OPENSSL), onoff, one(T_RIGHT), allSc, one(0), cc7, allVer, one(MV_0),
                 one(BY_IP), ca3, one(CFG_OK)};
     add(b);
     b = Block{"httpserver/raw", 1, {}};
@@ -261,6 +263,7 @@ Verdict decide(const Cell &c)
       else if (tr == T_WRONG || tr == T_NONE) v.reason = "server-chain-not-anchored";
       else if (tr == T_WRONG_SYS_RIGHT) v.reason = "server-chain-to-unconfigured-anchor";
       else if (sc == SC_EXPIRED) v.reason = "expired-server-certificate";
+      else if (sc == SC_NOTYET || sc == SC_NOTYET_FAR) v.reason = "not-yet-valid-server-certificate";
       else if (sc == SC_WRONGNAME && c[D_BY] == BY_NAME) v.reason = "hostname-not-verified";
       v.mustNotAdmit = !v.reason.empty();
     }
@@ -280,11 +283,13 @@ Verdict decide(const Cell &c)
   if (verify)
   {
     const int cc = c[D_CLICERT];
-    const int issuer = (cc == CC_VALID || cc == CC_EXPIRED) ? CA_RIGHT : (cc == CC_UNTRUSTED ? CA_WRONG : CA_NONE);
+    const bool byCaA = cc == CC_VALID || cc == CC_EXPIRED || cc == CC_NOTYET || cc == CC_NOTYET_FAR;
+    const int issuer = byCaA ? CA_RIGHT : (cc == CC_UNTRUSTED ? CA_WRONG : CA_NONE);
     if (cc == CC_NONE) v.reason = "client-without-certificate";
     else if (cc == CC_SELFSIGNED) v.reason = "self-signed-client-certificate";
     else if (c[D_SRVCA] == CA_NONE || issuer != c[D_SRVCA]) v.reason = "client-chain-not-anchored";
     else if (cc == CC_EXPIRED) v.reason = "expired-client-certificate";
+    else if (cc == CC_NOTYET || cc == CC_NOTYET_FAR) v.reason = "not-yet-valid-client-certificate";
     v.mustNotAdmit = !v.reason.empty();
   }
   if (!v.mustNotAdmit)
@@ -960,10 +965,11 @@ PBT_PROPERTY(selftest)
     expectComplete = false;
     break;
   case 4:
-    name = "verifying client rejects expired / self-signed / foreign-CA server certificates";
+    name = "verifying client rejects expired / self-signed / foreign-CA / not-yet-valid server certificates";
     {
-      int k = (int)src.range(0, 2);
-      const c07::Identity &id = k == 0 ? p.srvExpired : (k == 1 ? p.srvSelfSigned : p.srvValid);
+      int k = (int)src.range(0, 4);
+      const c07::Identity &id =
+        k == 0 ? p.srvExpired : (k == 1 ? p.srvSelfSigned : (k == 2 ? p.srvValid : (k == 3 ? p.srvNotYet : p.srvNotYetFar)));
       sc.cert = id.cert;
       sc.key = id.key;
       cc.requirePeerCert = true;
@@ -977,10 +983,13 @@ PBT_PROPERTY(selftest)
     cc.trustCa = p.caA.cert;
     break;
   case 6:
-    name = "server requiring client certificates rejects none / foreign-CA / expired / self-signed";
+    name = "server requiring client certificates rejects none / foreign-CA / expired / self-signed / not-yet-valid";
     {
-      int k = (int)src.range(0, 3);
-      const c07::Identity *id = k == 0 ? nullptr : (k == 1 ? &p.cliUntrusted : (k == 2 ? &p.cliExpired : &p.cliSelfSigned));
+      int k = (int)src.range(0, 5);
+      const c07::Identity *id =
+        k == 0 ? nullptr
+               : (k == 1 ? &p.cliUntrusted
+                         : (k == 2 ? &p.cliExpired : (k == 3 ? &p.cliSelfSigned : (k == 4 ? &p.cliNotYet : &p.cliNotYetFar))));
       if (id)
       {
         cc.cert = id->cert;
@@ -1089,6 +1098,17 @@ PBT_REGRESSION(tls_requested_but_not_switched_on_fails_closed)
                cellOf(R_CLIENT_SYNC, K_OPENSSL, 1, T_RIGHT, SC_VALID, 0, CC_VALID, V13, MV_0, BY_IP, CA_RIGHT, CFG_NO_MODE),
                cellOf(R_SERVER, K_PLAINTEXT, 0, T_RIGHT, SC_VALID, 0, CC_VALID, V13, MV_0, BY_IP, CA_RIGHT, CFG_NO_MODE),
                cellOf(R_SERVER, K_OPENSSL, 1, T_RIGHT, SC_VALID, 0, CC_VALID, V13, MV_0, BY_IP, CA_RIGHT, CFG_NOT_ENABLED)});
+}
+// "is within its validity period" has two ends: a correctly chained, correctly named certificate whose notBefore lies
+// in the future (one day, ten years) must be refused by a verifying client and by a server requiring client certificates
+PBT_REGRESSION(not_yet_valid_certificates_are_refused)
+{
+  runFixed(c, {cellOf(R_CLIENT_ASYNC, K_OPENSSL, 1, T_RIGHT, SC_NOTYET, 0, CC_NONE, V13, MV_0, BY_IP, CA_RIGHT),
+               cellOf(R_CLIENT_SYNC, K_OPENSSL, 1, T_RIGHT, SC_NOTYET_FAR, 0, CC_NONE, V12, MV_0, BY_NAME, CA_RIGHT),
+               cellOf(R_SERVER, K_OPENSSL, 1, T_RIGHT, SC_VALID, 0, CC_NOTYET, V13, MV_0, BY_IP, CA_RIGHT),
+               cellOf(R_SERVER, K_OPENSSL, 1, T_RIGHT, SC_VALID, 0, CC_NOTYET_FAR, V12, MV_0, BY_IP, CA_RIGHT),
+               cellOf(R_HTTP_CLIENT, K_OPENSSL, 1, T_RIGHT, SC_NOTYET, 0, CC_NONE, V13, MV_0, BY_IP, CA_RIGHT),
+               cellOf(R_HTTP_SERVER, K_OPENSSL, 1, T_RIGHT, SC_VALID, 0, CC_NOTYET_FAR, V13, MV_0, BY_IP, CA_RIGHT)});
 }
 // fixed points of the oracle that must hold on every tree (they pass before and after the fixes)
 PBT_REGRESSION(authentication_fixed_points)
